@@ -57,7 +57,7 @@ impl Parsable for EntryStoreBuilder {
                 let layout = Layout::parse(parser)?;
                 Ok(layout)
             }
-            _ => todo!(),
+            _ => Err(format_error!("Unsupported entry store kind", parser)),
         }
     }
 }
